@@ -8,7 +8,11 @@ Round 2: BlocksOnCylindrical templates, in-place change + same pointer, same-cou
 automatic zoom, downsample_images_to_scanner_size, random placement.
 Round 3: the older switch set_cache_enabled(bool) and the parsed keyword `use cache` in forced three-step histories (cache on / off + change of an
 image / on again), setters by file name, set_exam_info_sptr, set_randomly_place_scatter_points in mid-history, the three ways to provide the output,
-the parsing constructor (oracle)."""
+the parsing constructor (oracle).
+Round 4: energy windows that do not contain 511 keV / straddle it narrowly / very narrow / very wide with energy resolutions 5-30 % (phase A + `deteff` /
+`eff511`: detection_efficiency transcribed into the model, erf in binary64); activity values up to 1e6, homogeneity factors 1e-6 / 1e3 / 1e6, additivity with
+half images and point sources, `actint` (capped solid-angle factor x ray sum, exact in Rat); the automatic (-1) zoom factors in the Lean state machine (what the
+call stores: `autoZ`; `zoommem`), one object re-used with attenuation images of another x/y size."""
 import os
 from fractions import Fraction
 import vlib
@@ -29,8 +33,44 @@ def _frac(tok):
     return Fraction(int(a), int(b))
 
 
+# detection_efficiency(E) = 0.5f*(erf(a) - erf(b)), a = (hi-E)/sigma, b = (lo-E)/sigma computed in SINGLE precision: the relative
+# error of a and b is at most 3*2^-24 (subtraction, sigma rounded to float, division); erf(t) moves by
+# (2/sqrt(pi))*|t|*exp(-t^2) times the relative error of t (first order; the model prints M = half the sum of the two
+# sensitivities + |value| for the final rounding).  Bound used: 16*2^-24*M + 2^-46 (the floor covers `1 - z` in
+# stir::erf, which is rounded to a multiple of 2^-53, and the 1e-16 absolute accuracy of the model's binary64 erf).
+DETEFF_FACTOR = 16  # 4*n with n = 3 single-precision operations, rounded up
+DETEFF_FLOOR = Fraction(1, 2 ** 46)
+
+
 def compare(op, impl, model):
     kind = op.split(" ", 1)[0]
+    if kind == "deteff":
+        try:
+            val, mag = [_frac(t) for t in model.split()]
+            x = Fraction(float.fromhex(impl))
+        except (ValueError, ZeroDivisionError, OverflowError):
+            return False
+        return abs(x - val) <= DETEFF_FACTOR * EPSF * mag + DETEFF_FLOOR
+    if kind == "eff511":
+        # norm = raw > 0 ? raw : 1; where raw is within the floor of 0 the implementation may take either branch
+        try:
+            norm, raw, mag = [_frac(t) for t in model.split()]
+            x = Fraction(float.fromhex(impl))
+        except (ValueError, ZeroDivisionError, OverflowError):
+            return False
+        tol = DETEFF_FACTOR * EPSF * mag + DETEFF_FLOOR
+        if abs(x - norm) <= tol + 8 * Fraction(1, 2 ** 52) * abs(norm):
+            return True
+        return raw <= 2 * DETEFF_FLOOR and (abs(x - 1) <= Fraction(1, 2 ** 40) or abs(x - raw) <= tol)
+    if kind == "actint":
+        # float sum of n products, one division and one product for the capped factor, one product with the sum
+        try:
+            val, mag = [_frac(t) for t in model.split()]
+            x = Fraction(float.fromhex(impl))
+            n = int(op.split(" ", 2)[1])
+        except (ValueError, ZeroDivisionError, OverflowError):
+            return False
+        return abs(x - val) <= 4 * (n + 4) * EPSF * mag
     if kind not in ("ssp", "est", "effns"):
         # an all-zero output equals the all-zero output of a fresh object whatever was stale
         if impl == "ok zero":
@@ -55,13 +95,13 @@ def main(tier, replay):
     audit = vlib.lean_gate(chk, PROP)
     stats = vlib.run_differential(chk, PROP, "c16_scatter", tier, compare=compare)
     vlib.standard_coverage(chk, stats,
-        "real SingleScatterSimulation on generated scanners, 7 generated templates per world (+ 4 cylindrical ones read back from Interfile projection-data headers written by the harness): cylindrical (8-16 detectors x 1-3 rings; two of equal size "
+        "real SingleScatterSimulation on generated scanners, 9 generated templates per world (round 4: two of them with 5 % / 30 % energy resolution) (+ 4 cylindrical ones read back from Interfile projection-data headers written by the harness): cylindrical (8-16 detectors x 1-3 rings; two of equal size "
         "with different radius/energy resolution, one of another size, two with a coarse default bin size), BlocksOnCylindrical (4-6 flat blocks of "
         "3-4 crystals x 2-3 rings, two of equal size with different radius/crystal pitch: the two crystals of a pair are at different radii, "
         "generator-checked), down-sampled scanners (downsample_scanner through the set_up flag and through explicit calls, both geometries); "
-        "3 energy windows (two share the upper, two the lower threshold) + those read back from 4 Interfile projection-data headers, dense/sparse/zero activity images, 3 attenuation images (one the mirror image of another: same number of derived scatter "
-        "points elsewhere), 3 scatter-point images (two with the same number of scatter points at different voxels), 2 thresholds, 2 explicit zoom "
-        "sets + the automatic (-1) zoom/size, downsample_images_to_scanner_size, randomly_place_scatter_points off and on (time() replaced by a "
+        "3 energy windows containing 511 keV (two share the upper, two the lower threshold) + 7 round-4 windows (see ROUND 4) + those read back from 4 Interfile projection-data headers, dense/sparse/zero activity images, 3 attenuation images (one the mirror image of another: same number of derived scatter "
+        "points elsewhere) + 1 of another x/y size, 3 scatter-point images (two with the same number of scatter points at different voxels), 2 thresholds, 2 explicit zoom "
+        "sets + 1 with sizes -1 + the automatic (-1) zoom/size, downsample_images_to_scanner_size, randomly_place_scatter_points off and on (time() replaced by a "
         "clock derived from the seed). "
         "`ssp`/`est`/`effns`: value of simulate_for_one_scatter_point / actual_scatter_estimate / detection_efficiency_no_scatter (both orders of "
         "the pair) vs the Lean formula evaluated exactly in Rat on the ingredients the implementation read — the incidence cosine of EACH detector "
@@ -94,16 +134,53 @@ def main(tier, replay):
         "a template change (clean) and alone (KNOWN class of set_exam_info), set_randomly_place_scatter_points before the scatter points are "
         "sampled (clean), with the value it already has on an object with a user-supplied scatter-point image (clean), after they were sampled "
         "(recorded, like threshold/zoom). Oracle-only: SingleScatterSimulation(parameter file) with all keywords == object configured through "
-        "the setters, also after parse(`use cache`) + another activity image, twice. Oracle-only histories (not in the Lean state machine): automatic zoom/size after activity / "
-        "attenuation / template changes, downsample_images_to_scanner_size after a computation.")
+        "the setters, also after parse(`use cache`) + another activity image, twice. Oracle-only histories: automatic zoom/size after activity / "
+        "attenuation / template changes (KNOWN classes), downsample_images_to_scanner_size after a computation (not in the Lean state machine). "
+        "ROUND 4. (1) Energy windows: per world 7 more exam infos — 400-480, 250-350, 120-160 keV (do NOT contain 511), 350-(511.5..520.5) and "
+        "350-(501.5..510.5) (upper threshold just above / just below 511), 505-517 (very narrow), 50-1000 (very wide) — and two more templates with "
+        "energy resolution 5 % and 30 % (the others have 10-20 %): 7 more phase-A configurations per world (14 in the thorough tier) run ALL oracles "
+        "(symmetry, >= 0 for every (point, pair) and every bin, zero, linearity, cache on == off) and the `ssp`/`est`/`effns` correspondence on them. "
+        "`deteff E Eref res 2.35482f lo hi`: detection_efficiency(E) of the real object vs the Lean transcription "
+        "0.5*(erf((hi-E)/s) - erf((lo-E)/s)), s = sqrt(2*E*Eref)*res/2.35482f, evaluated in binary64 with the model's own erf (series / continued "
+        "fraction, absolute accuracy 1e-16; NOT a transcription of stir/numerics/erf.inl), for every pool window x 5 templates x 17 fixed + 2 random "
+        "energies, for 30 (thorough: 60) random windows (lower threshold 30-600 keV, width 1-600 keV or ending within 3 keV of 511) x resolutions 5-30 % "
+        "(a quarter quoted at another reference energy) x 20 energies, and for the scattered energy of the first 3 scatter points of every `est` line; "
+        "tolerance 16*2^-24*M + 2^-46, M = half the sum of the first-order sensitivities (2/sqrt(pi))*|t|*exp(-t^2) of the two erf arguments (3 "
+        "single-precision operations each) + |value|; oracle 0 <= efficiency <= 1 on every one of them. `eff511 Eref res 2.35482f lo hi`: the "
+        "normalisation the object holds (recovered from detection_efficiency_no_scatter(A,B)) vs the model's `eff(511) > 0 ? eff(511) : 1` (either "
+        "branch accepted where eff(511) is below 2^-45); oracle: it is positive. "
+        "(2) Automatic scatter-point image on a re-used object: a 4th attenuation image with 4-10 more voxels in x and y (same voxel sizes and planes) and "
+        "a zoom set with explicit factors and sizes -1; per world 6 forced clean histories (automatic factors starting narrow / wide: set_up; compute; "
+        "other size; set_up; compute; by file name + explicit downsample_density_image_for_scatter_points call with the members as arguments; in "
+        "place; threshold; the explicit call before any set_up; explicit factors with sizes -1 on a cylindrical and a blocks template; explicit sizes) "
+        "+ 1 history with template changes (the KNOWN automatic-zoom classes: the state machine has to predict which results are stale) + 10 "
+        "(thorough: 30) random histories with the automatic factors inside the guard: every process_data == fresh object (bitwise, most also == fresh "
+        "object with the opposite cache setting), `nsp` and `zoommem` (the members zoom_size_xy, zoom_size_z and `zoom_xy < 0`) == Lean state machine, "
+        "which now has the members the automatic call stores (zoom_xy / zoom_z / zoom_size_z frozen as a class measured on probe objects, zoom_size_z "
+        "= number of rings, zoom_size_xy stays -1). Generator check: the two image sizes give automatic scatter-point images of different x size. "
+        "(3) Activity: pool images with values up to 1e6 (log-uniform), the x < 0 and x >= 0 halves of image 0, a point source; every phase-A "
+        "configuration: estimate(f*activity) == f*estimate for f = 1e-6, 1e3, 1e6 on fresh objects and on the same object (64*2^-24 relative), "
+        "estimate(left) + estimate(right) == estimate(whole), estimate(3*left + 1e4*point) == 3*estimate(left) + 1e4*estimate(point) (4*64*2^-24); "
+        "4 more phase-A configurations with the large / point / half image as THE activity image (all oracles + correspondence). "
+        "`actint n r2 pi/2 (inside value length)^n`: integral_over_activity_image_between_scattpoint_det(scatter point, detector) vs the Lean model "
+        "min(pi/2, 1/r2) * sum over the ray elements (those RayTraceVoxelsOnCartesianGrid returns for the arguments integral_between_2_points passes; "
+        "exact in Rat, tolerance 4*(n+4)*2^-24*M) for both detectors of the first 3 scatter points of every `est` line; oracle: cached integral == direct "
+        "integral (bitwise) and == min(pi/2, 1/r2) * integral_between_2_points (4*2^-24).")
     chk.assumptions += [
-        "line integrals, Compton cross sections, detection efficiencies, cosines and pow() are inputs of the formula model (their linearity / sign "
-        "hypotheses are checked on the implementation by the oracle, not proved); detector coordinates (find_detectors, blocks geometry) are taken "
-        "from the implementation, only their z-centring is checked",
+        "attenuation line integrals, Compton cross sections, max_cos_angle, photon energy after scatter, cosines and pow() are inputs of the formula "
+        "model (their sign hypotheses are checked on the implementation by the oracle, not proved); round 4: detection_efficiency and the capped "
+        "solid-angle factor of the activity integral ARE transcribed (theorems: >= 0 for every window given erf monotone, <= 1, normalisation > 0, "
+        "activity integral linear in the image with the cap), with erf / sqrt as parameters instantiated in binary64 by the driver; the ray elements "
+        "of `actint` are RayTraceVoxelsOnCartesianGrid's (taken from STIR, not modelled); detector coordinates (find_detectors, blocks geometry) "
+        "are taken from the implementation, only their z-centring is checked",
         "state machine over value identities: two different images/templates/windows are assumed to give different integrals (generator makes sure); "
         "an in-place change + same pointer is modelled as the setter with new values (theorem C16_inplace_same_pointer_invalidates_like_new_pointer); "
         "changing an image in place WITHOUT calling the setter is outside the property and not exercised",
-        "automatic (-1) zoom factors and downsample_images_to_scanner_size are not in the Lean state machine (oracle on the implementation only); "
+        "automatic (-1) zoom factors: the VALUES computed (zoom_xy = voxel size ratio, zoom_z, sizes) are not modelled — the state machine has which "
+        "members the call stores and the computed factors as a class per (attenuation image, template) measured on probe objects; automatic "
+        "histories only use the templates with a coarse default bin size and attenuation images with the same voxel sizes and number of planes "
+        "(another number of planes with frozen factors can hit the zoom_z consistency error: not exercised); downsample_images_to_scanner_size is "
+        "not in the Lean state machine (oracle on the implementation only); "
         "random placement: the FLAG is a setting of the state machine (stamp of the scatter points), the positions drawn are not modelled; "
         "srand(time(NULL)) is made reproducible by replacing time(); two objects are only compared with the clock pinned",
         "public non-const members NOT exercised: ask_parameters (interactive), set_output_proj_data / set_output_proj_data_sptr with a non-empty "
